@@ -65,11 +65,11 @@ pub fn configs_c08(tier: Tier) -> Vec<Box<dyn Config>> {
     let p = vec![Probe::Capacity];
     let mut v: Vec<Box<dyn Config>> = vec![Box::new(Constructors)];
     if sse2 {
-        v.push(probe_cfg::<TKey, TVal>(Plan::Zero, if q { 9 } else { 15 }, p.clone(), tier, "capacity"));
+        v.push(probe_cfg::<TKey, TVal>(Plan::Zero, if q { 13 } else { 16 }, p.clone(), tier, "capacity"));
         v.push(probe_cfg::<PKey, PVal>(Plan::Seq, if q { 5 } else { 7 }, p.clone(), tier, "capacity"));
         v.push(probe_cfg::<TKey, TVal>(Plan::Last, if q { 5 } else { 7 }, p.clone(), tier, "capacity"));
     } else {
-        v.push(probe_cfg::<TKey, TVal>(Plan::Zero, if q { 8 } else { 12 }, p.clone(), tier, "capacity"));
+        v.push(probe_cfg::<TKey, TVal>(Plan::Zero, if q { 12 } else { 14 }, p.clone(), tier, "capacity"));
         v.push(probe_cfg::<PKey, PVal>(Plan::Cluster(2), if q { 6 } else { 9 }, p.clone(), tier, "capacity"));
         v.push(probe_cfg::<TKey, TVal>(Plan::Seq, if q { 5 } else { 7 }, p.clone(), tier, "capacity"));
     }
@@ -82,10 +82,10 @@ pub fn configs_c12(tier: Tier) -> Vec<Box<dyn Config>> {
     let p = vec![Probe::TryReserve];
     let mut v: Vec<Box<dyn Config>> = Vec::new();
     if sse2 {
-        v.push(probe_cfg::<TKey, TVal>(Plan::Zero, if q { 7 } else { 15 }, p.clone(), tier, "try_reserve"));
+        v.push(probe_cfg::<TKey, TVal>(Plan::Zero, if q { 11 } else { 15 }, p.clone(), tier, "try_reserve"));
         v.push(probe_cfg::<PKey, PVal>(Plan::Seq, if q { 4 } else { 6 }, p.clone(), tier, "try_reserve"));
     } else {
-        v.push(probe_cfg::<TKey, TVal>(Plan::Zero, if q { 7 } else { 11 }, p.clone(), tier, "try_reserve"));
+        v.push(probe_cfg::<TKey, TVal>(Plan::Zero, if q { 11 } else { 13 }, p.clone(), tier, "try_reserve"));
         v.push(probe_cfg::<PKey, PVal>(Plan::Cluster(2), if q { 5 } else { 8 }, p.clone(), tier, "try_reserve"));
     }
     v
